@@ -27,7 +27,17 @@ def build_batch(programs, cmd="lang", tables=(), langs="python", ext=".py", time
             p["rows"] = tengine.jsonable_rows(gir.get(uid, [])) if uid is not None else []
             ids = {r["stmt_id"] for r in p["rows"]}
             for t in extra:
-                p[t] = tengine.jsonable_rows([r for r in extra[t] if _belongs(r, uid, ids)])
+                if t == "callpaths":
+                    keep = []
+                    for r in extra[t]:
+                        path = r.get("call_path")
+                        path = path.tolist() if hasattr(path, "tolist") else path
+                        path = [[int(x) for x in site] for site in (path or [])]
+                        if path and path[0][0] in ids:
+                            keep.append({"call_path": path})
+                    p[t] = keep
+                else:
+                    p[t] = tengine.jsonable_rows([r for r in extra[t] if _belongs(r, uid, ids)])
     finally:
         run.cleanup()
     return {"programs": programs}, info
